@@ -947,6 +947,12 @@ class Executor:
         if isinstance(base, Opaque) and base.tag == "module:np":
             if attr == "pi":
                 return self.pi()
+            if attr == "inf":
+                # +infinity as an (unbounded) real constant: larger than every number the code can meet; only comparisons are meaningful (A1)
+                inf = z3.Real("INF")
+                self.assumptions.add("A1.inf: np.inf is modelled as a real constant INF > 10^300 (only used in comparisons)")
+                self.fact(inf > z3.RealVal(10) ** 300)
+                return inf
             return Opaque("np." + attr)
         if isinstance(base, Opaque) and base.tag.startswith("module:"):
             return Opaque(base.tag[7:] + "." + attr)
@@ -1914,6 +1920,27 @@ class Executor:
         elif isinstance(exc, ast.Attribute):
             name = exc.attr
         raise RaiseEx(name or "Exception", st.lineno)
+
+    def st_Try(self, st, env):
+        """try / except: an exception raised by the body (explicit raise, or a modelled builtin raising) is matched against the handlers by class
+        NAME - `Exception` / a bare except catch everything; class hierarchies of the repository's own exceptions are not modelled."""
+        if st.finalbody:
+            raise Unsupported("try ... finally")
+        try:
+            self.exec_block(st.body, env)
+        except RaiseEx as r:
+            for h in st.handlers:
+                names = [None] if h.type is None else ([h.type] if not isinstance(h.type, ast.Tuple) else list(h.type.elts))
+                caught = any(n is None or (isinstance(n, ast.Name) and n.id in ("Exception", "BaseException", r.exc)) or
+                             (isinstance(n, ast.Attribute) and n.attr == r.exc) for n in names)
+                if caught:
+                    if h.name:
+                        env[h.name] = Opaque("exception", 0)
+                    self.exec_block(h.body, env)
+                    return
+            raise
+        else:
+            self.exec_block(st.orelse, env)
 
     def st_Break(self, st, env):
         raise BreakEx()
